@@ -822,6 +822,17 @@ def replay(ctx, hdr, body):
     import runner
     lines = [l for l in body if not re.match(r"^[A-Za-z_()0-9 ]{1,20}: ", l)]
     out, ok = [], True
+    if hdr.get("kind") == "sequence":
+        # a history: the lines ran one after the other in ONE library process (state a refused blob may leave
+        # behind in the codec helpers); the Model's codecs are functions, each line is judged on its own
+        hs = runner.run_harness_script(lines, stateless=True, watchdog=20)[0]
+        ms = runner.run_model_script(lines)
+        for l, h, m in zip(lines, hs, ms):
+            good = h == m
+            ok = ok and good
+            out.append("%s\n   impl:  %s\n   model: %s%s" % (l[:300], h[:300], m[:300], "" if good else "   <-- differ"))
+        out.append("recorded verdict: %s" % hdr.get("what", "(none)"))
+        return ok, "\n".join(out)
     for l in lines:
         cmd = l.split(" ", 1)[0]
         if cmd in MODEL_ONLY:
